@@ -490,7 +490,13 @@ def helper_affine(program, name):
     u = program.mod('utils')
     fn = u.defs.get(name)
     if fn is None:
-        return None, f"utils.{name} not found"
+        # defined in another module of the package (utils may only re-export it)
+        for mname_, m_ in program.modules.items():
+            if name in m_.defs and mname_ != 'pgns':
+                u, fn = m_, m_.defs[name]
+                break
+    if fn is None:
+        return None, f"{name} not found in the package"
     helpers = {q: f for q, f in u.defs.items() if '.' not in q and q != name}
     ex = sym.SymExec(fn, inline=helpers)
     try:
@@ -617,6 +623,11 @@ def unit_semantic(chk, program):
     cls = program.cls('message', 'NMEA2000Message')
     methods = {n.name: n for n in cls.body if isinstance(n, ast.FunctionDef)}
     converters = {q for q in program.mod('utils').defs if '.' not in q}
+    # module-level functions of the other hand-written modules: a field value handed to one of them (and nothing else) is a conversion by that function,
+    # judged on its own by UNIT-AFFINE
+    for mname_, m_ in program.modules.items():
+        if mname_ not in ('pgns', 'message', 'decoder', 'encoder', 'ioclient'):
+            converters |= {q for q in m_.defs if '.' not in q}
     lits = sorted({l for (_, l) in PHYS} | {'zz', 'k', 'pa', 'rad', 'm/s', 'knots', 'C', 'celsius'})
     quantities = list(SI_UNIT) + ['LENGTH']
     db_units = sorted({(fl.quantity, fl.unit) for d in program.db.defs for fl in d.fields if fl.quantity in SI_UNIT and fl.unit != SI_UNIT[fl.quantity] and fl.unit})
